@@ -17,6 +17,9 @@ import struct
 import zlib
 import vlib
 import gen_depack_limits
+import random
+import shutil
+import synthmods
 
 LEVEL = "proof"
 MANIFEST = dict(
@@ -162,6 +165,11 @@ def run(ck):
 
     # ---- measured search ------------------------------------------------------------------------
     files = [f for f in vlib.corpus_files() if os.path.getsize(f) <= (300000 if quick else 3000000)]
+    syn_dir = os.path.join(scratch, "syn-%d" % ck.seed)
+    shutil.rmtree(syn_dir, ignore_errors=True)
+    syn = synthmods.write_set(random.Random(ck.seed * 104729 + 3), syn_dir, 120 if quick else 1200)
+    files = files + syn * max(1, len(files) // (2 * max(1, len(syn))))
+    ck.note("synthetic_modules", len(syn))
     bombs = make_bombs(os.path.join(scratch, "gen"), quick)
     per = 120 if quick else 3000
     shards = [(exe, ck.seed * 2003 + 13 * i, 0, per, scratch, files) for i in range(14)]
